@@ -291,7 +291,7 @@ impl<'a> G<'a> {
             Some(a) => a,
             None => return,
         };
-        match self.rng.below(if g == 0 { 16 } else { 15 }) {
+        match self.rng.below(if g == 0 { 17 } else { 16 }) {
             0 | 1 | 2 | 3 => self.binop(g),
             4 => {
                 { let st__ = Step::Neg { g, dst, a }; self.emit(st__); }
@@ -408,7 +408,28 @@ impl<'a> G<'a> {
                 }
             }
             _ => {
-                { let st__ = Step::Pred { a }; self.emit(st__); }
+                match if g == 0 { self.rng.below(4) } else { 3 } {
+                    0 => {
+                        { let st__ = Step::Pred { a }; self.emit(st__); }
+                    }
+                    1 => {
+                        let via = self.rng.below(3) as u8;
+                        { let st__ = Step::Cofac { dst, a, via }; self.emit(st__); }
+                    }
+                    _ => {
+                        // the random constructors, from a simulated RNG (possibly stuck or short-period)
+                        let n = if self.faulty() {
+                            bump(&mut self.c, "fault:rng_short_period");
+                            1 + self.rng.below(40) as usize
+                        } else {
+                            64 + self.rng.below(64) as usize
+                        };
+                        let stream = self.rng.bytes(n);
+                        if crate::group::model_random(g, &stream).is_some() {
+                            { let st__ = Step::Rand { g, dst, rng: simcore::Rng { b: B(stream), mode: 0 } }; self.emit(st__); }
+                        }
+                    }
+                }
             }
         }
     }
